@@ -5,7 +5,7 @@ PROP = dict(
     design_ref="DESIGN.md section 10, C17",
     technique="Coq proof that in the model (where every OS error carries a 'names a host path' bit that only stripPath/errFromOS clear, as in fs_local.go) no response of any request on any tree discloses a host path; correspondence check scans every header and body of every explored response for the sandbox path",
     level_text="Machine-checked theorem C17_no_leak: for every tree, root and request the response's disclosure bit is false — every error path of the model passes through the stripping functions where the Go code applies them. Every run scans all header values and the body of every response of the bounded universe, the traversal stage and the random histories for the absolute path of the sandbox (created under an unmistakable directory name) and compares the bit with the model.",
-    level_note="Trusted as for C01. Which OS errors can occur is the Fs.v semantics: the model does not distinguish ENAMETOOLONG, ELOOP, ENOTEMPTY and the errors of a sandbox that changes under an upload — C17_no_leak says that no error of any kind leaves the model unstripped, and the exotic stage provokes those errors in the real handler and compares the disclosure bit only; write failures, permissions and cross-device renames are not reachable in the harness; io.Copy write errors in Create would still carry the temporary file's path (recorded in DESIGN.md as residual).",
+    level_note="Trusted as for C01. Which OS errors can occur is the Fs.v semantics: the model does not distinguish ENAMETOOLONG, ELOOP, ENOTEMPTY and the errors of a sandbox that changes under an upload — C17_no_leak says that no error of any kind leaves the model unstripped, and the exotic stage provokes those errors in the real handler and compares the disclosure bit only; write failures are provoked by the wfault stage (they disclosed the temporary file's path until repair 6981fa5); permissions and cross-device renames are not reachable in the harness; io.Copy write errors in Create would still carry the temporary file's path (recorded in DESIGN.md as residual).",
     stages=[
         dict(name="universe", harness="dav", oracle="DAV", args=["-stage", "universe"], oracle_args=["c17"]),
         dict(name="traversal", harness="dav", oracle="DAV", args=["-stage", "traversal"], oracle_args=["c17"]),
@@ -13,8 +13,9 @@ PROP = dict(
         dict(name="exotic", harness="dav", oracle="DAV", args=["-stage", "exotic"], oracle_args=["c17"]),
         dict(name="rootspell", harness="dav", oracle="DAV", args=["-stage", "rootspell"], oracle_args=["c17"]),
         dict(name="raceput", harness="dav", oracle="DAV", args=["-stage", "raceput"], oracle_args=["c17"]),
+        dict(name="wfault", harness="dav", oracle="DAV", args=["-stage", "wfault"], oracle_args=["c17"]),
     ],
-    rule=UNIVERSE + "; traversal stage and random histories as for C03/C01; exotic stage (only the disclosure bit is compared there, the model does not distinguish these OS errors): every method on names longer than 255 bytes, on paths longer than 4096 bytes (15 nested 250-byte names), on and through symbolic links (self loop, link to a directory, dangling, link inside a copied collection), COPY/MOVE with such sources and destinations, and PUTs during whose body the parent is removed, replaced by a file, the target becomes an (empty / non-empty) directory or a file, or the root is removed; a link to /dev/null; rootspell stage: unclean spellings of the root in the configuration; raceput stage: 1,500 (quick) / 12,000 (thorough) PUT + GET of one target while four goroutines DELETE it (the windows between Create's rename and its final Stat, and between Stat and Open); observed: does any header value or the body contain the sandbox's absolute path; non-trivial = every case; distinct = by digest of (tree, request)",
+    rule=UNIVERSE + "; traversal stage and random histories as for C03/C01; exotic stage (only the disclosure bit is compared there, the model does not distinguish these OS errors): every method on names longer than 255 bytes, on paths longer than 4096 bytes (15 nested 250-byte names), on and through symbolic links (self loop, link to a directory, dangling, link inside a copied collection), COPY/MOVE with such sources and destinations, and PUTs during whose body the parent is removed, replaced by a file, the target becomes an (empty / non-empty) directory or a file, or the root is removed; a link to /dev/null; rootspell stage: unclean spellings of the root in the configuration; raceput stage: 1,500 (quick) / 12,000 (thorough) PUT + GET of one target while four goroutines DELETE it (the windows between Create's rename and its final Stat, and between Stat and Open); wfault stage: in a child process whose RLIMIT_FSIZE is 64 KiB (SIGXFSZ ignored) PUTs and COPY/MOVEs that must write more than that, i.e. write errors in the middle of an upload or a copy; observed: does any header value or the body contain the sandbox's absolute path; non-trivial = every case; distinct = by digest of (tree, request)",
     exhaustive=True,
     exhaustive_universe="every (tree, request) pair of the bounded universe",
     trusted_base=DAV_TRUST,
